@@ -133,7 +133,7 @@ func execCli(raw json.RawMessage) any {
 	reg := newKeyRegistry()
 	m := loadDir(root)
 	pre, _ := observeDir(m, reg)
-	initial := J{"pems": pre, "ranks": mtimeRanks(m)}
+	initial := J{"pems": pre, "ranks": mtimeRanks(m), "hashes": currentHashes(m)}
 	steps := []J{}
 	for _, st := range in.Steps {
 		so := J{"op": st.Op}
@@ -214,7 +214,7 @@ func execCli(raw json.RawMessage) any {
 		m = loadDir(root)
 		pems, certs := observeDir(m, reg)
 		verifyMatrix(pems, certs, reg)
-		so["pems"], so["ranks"], so["files"] = pems, mtimeRanks(m), fileList(m)
+		so["pems"], so["ranks"], so["files"], so["hashes"] = pems, mtimeRanks(m), fileList(m), currentHashes(m)
 		steps = append(steps, so)
 		// distinct modification times for consecutive steps, whatever the clock granularity of the file system
 		time.Sleep(3 * time.Millisecond)
